@@ -288,6 +288,9 @@ class Merge(Expr):
             s_method in ("tasks", "p2p")
             and self.how in ("inner", "left", "right", "leftsemi")
             and self.how != broadcast_side
+            # a left row must come out once, however many partitions of the
+            # right side hold a match for it
+            and not (self.how == "leftsemi" and broadcast_side == "left")
             and broadcast is not False
         ):
             n_low = min(self.left.npartitions, self.right.npartitions)
